@@ -320,6 +320,8 @@ func runC11(c *Ctx) {
 	c.rule("no-env-writes", "no non-test code in the repository calls os.Setenv/Unsetenv/Clearenv (vacuity guard: the scan must see the os.LookupEnv call)", 1)
 	c.rule("errors-propagate", "a parse error is tested and returned at every hop: parse.String -> StringCastingMangler.Unmangle -> Transformer.unmangleField -> ReverseTranslate -> env Value", 4)
 	c.rule("unset-stays-unset", "string-cast Unmangle returns the zero of the field type for a nil *string before parsing anything", 1)
+	c.rule("flatten-flag-accumulates", "in the flatten unmangler the 'any child set' flag is old || nested after a nested struct and true under a non-nil leaf, and gates the parent pointer (a variable that is present must not be dropped because a later sibling struct is empty); shared with C10", 3)
+	c10FlattenFlag(c)
 
 	w := c.W
 	f := w.fn("sources/env", "Source.Value")
